@@ -692,6 +692,12 @@ def getitem(eng, base, idx):
         return T.add(base.start, T.mul(idx, base.step))
     if isinstance(base, I.Arr):
         return arr_getitem(eng, base, idx)
+    if type(base).__name__ == "SymList":
+        idx = unwrap(idx)
+        if isinstance(idx, (slice, I.Arr)) or not T.is_int_valued(idx):
+            raise Unsupported("non-integer subscript of a list of symbolic length")
+        eng.oblige("seq-index-in-bounds", T.land(T.compare("ge", idx, T.neg(base.length)), T.compare("lt", idx, base.length)), kind="bounds")
+        return base.item(T.ite(T.compare("lt", idx, 0), T.add(idx, base.length), idx) if T.is_sym(idx) else (idx if idx >= 0 else T.add(idx, base.length)))
     if isinstance(base, I.Obj):
         c, m = base.cls.find(eng, "__getitem__")
         if m is None:
@@ -1061,6 +1067,10 @@ def getattr_value(eng, obj, name):
             return 0
         if name == "shape":
             return ()
+    if type(obj).__name__ == "SymList":
+        if name == "append":
+            return I.Model("SymList.append", lambda eng_, v, obj=obj: obj.append(eng_, v))
+        raise Unsupported(f"method {name} of a list of symbolic length")
     for tname, t in (("list", list), ("dict", dict), ("str", str), ("tuple", tuple), ("set", set)):
         if isinstance(obj, t):
             key = f"{tname}.{name}"
